@@ -41,6 +41,12 @@ def gen_case(rng, tier, idx):
     N = float(gen.pick(rng, [1, 20, 1000]))
     meas, info = measure.gen_measurements(rng, attrs, shape, 1, 4, N=N, structure=structure, min_cells=2, max_cells=64,
                                           qkinds=['identity', 'identity', 'dense', 'sparse', 'prefix', 'tall'])
+    balanced = (idx % 19 == 18)
+    if balanced:
+        # measured counts exactly those of the uniform table: the start is already optimal and the loss is stationary
+        for m_ in meas:
+            n = int(np.prod([shape[attrs.index(a)] for a in m_['proj']]))
+            m_['y'] = (m_['Q'] @ (np.ones(n) * max(1.0, N) / n)) if m_['Q'] is not None else np.ones(n) * max(1.0, N) / n
     if exact:
         # the exactness clause is about the optimum, not about conditioning: one noise scale per problem
         s0 = float(gen.pick(rng, measure.SIGMAS))
@@ -55,7 +61,7 @@ def gen_case(rng, tier, idx):
                 n = shape[attrs.index(a)]
                 meas.append(dict(Q=np.eye(n), kind='identity', y=np.ones(n) * N / n + rng.normal(0, 1.0, n), sigma=float(gen.pick(rng, [1.0, 10.0])), proj=(a,)))
     return dict(attrs=attrs, shape=shape, meas=meas, structure=structure, N=N, oracle=oracle, exact=bool(exact),
-                iters=int(gen.pick(rng, ITERS)), total=(None if rng.rand() < 0.3 else float(max(1.0, N))),
+                iters=int(gen.pick(rng, ITERS)), total=(None if (rng.rand() < 0.3 and not balanced) else float(max(1.0, N))), balanced=bool(balanced),
                 spellings=[gen.pick(rng, ['dense', 'dense', 'csr']) for _ in meas], np_seed=int(rng.randint(2 ** 31)))
 
 
@@ -100,6 +106,8 @@ def run_case(case, ctx):
     ctx.tag('oracle:' + oracle)
     ctx.tag('structure:' + case['structure'])
     ctx.tag('iters:%d' % case['iters'])
+    if case.get('balanced'):
+        ctx.tag('balanced_counts')
     np.random.seed(case['np_seed'] % (2 ** 32))
     schedule = [case['iters']] if not case['exact'] else [300, 1000, 3000, 10000]
     rel = None
@@ -109,8 +117,12 @@ def run_case(case, ctx):
             eng, model, seen = run_local(m, dom, tuples, case['total'], oracle, iters)
         except Exception as e:
             import traceback
+            fu0 = uniform_loss(attrs, shape, plain, case['total']) if case['total'] is not None else None
+            ynorm = float(sum(float(np.sum((np.asarray(y_) / s_) ** 2)) for _q, y_, s_, _p in plain))
             ctx.check(False, 'completes', 'exception', 'LocalInference(%s, iters=%d).estimate raised %s: %s | %s' % (
-                oracle, iters, type(e).__name__, e, traceback.format_exc()[-600:]), oracle=oracle)
+                oracle, iters, type(e).__name__, str(e)[:200], traceback.format_exc()[-600:]), oracle=oracle, exc_type=type(e).__name__,
+                uniform_loss=fu0, y_norm2=ynorm,
+                measured_cliques_overlap=any(set(p1[3]) & set(p2[3]) for i_, p1 in enumerate(plain) for p2 in plain[i_ + 1:] if set(p1[3]) != set(p2[3])))
             return
         ctx.check(True, 'completes', '', '')
         total = float(model.total)
@@ -192,7 +204,20 @@ def _f10(case, failure):
     return failure['kind'] == 'worse_than_uniform' and last <= fu * (1 + 1e-9) + 1e-12
 
 
-FINDINGS = {'F10': _f10}  # F14 (repeated cliques in FactorGraph) was repaired in /repo (b8597f6); its witness is a regression case
+def _f15(case, failure):
+    """F15: when the uniform start is already (numerically) optimal the loss is stationary up to ~1e-28 of message-passing
+    rounding noise (needs overlapping measured cliques, i.e. messages); an uptick of that size in the first 50 iterations makes mirror_descent_auto restart with half the
+    step, which changes nothing, so it restarts for ever: RecursionError (region-graph oracles)."""
+    d = failure.get('data', {})
+    try:
+        fu, yn = float(d.get('uniform_loss')), float(d.get('y_norm2'))
+    except Exception:
+        return False
+    return (failure['kind'] == 'exception' and d.get('exc_type') == 'RecursionError' and d.get('oracle') in ('convex', 'approx')
+            and bool(d.get('measured_cliques_overlap')) and fu <= 1e-18 * max(1.0, yn))
+
+
+FINDINGS = {'F10': _f10, 'F15': _f15}  # F14 (repeated cliques in FactorGraph) was repaired in /repo (b8597f6); its witness is a regression case
 
 
 def fixed_cases(tier):
@@ -209,6 +234,9 @@ def fixed_cases(tier):
     w = dict(attrs=attrs, shape=shape, meas=mk(7), structure='cyclic', N=100.0, oracle='convex', exact=False, iters=1, total=100.0,
              spellings=['dense'] * 3, np_seed=7)
     out.append(('witness:F10', w))
+    bal = [dict(Q=np.eye(6), kind='identity', y=np.ones(6) * 10.0, sigma=1.0, proj=p) for p in [('A', 'B'), ('B', 'C')]]
+    out.append(('witness:F15', dict(attrs=['A', 'B', 'C'], shape=[2, 3, 2], meas=bal, structure='balanced', N=60.0, oracle='convex', exact=False,
+                                    iters=60, total=60.0, balanced=True, spellings=['dense'] * 2, np_seed=1)))
     import os
     import pickle
     wp = os.path.join(os.path.dirname(os.path.dirname(os.path.dirname(os.path.abspath(__file__)))), 'witnesses', 'C18_F14.pkl')
